@@ -527,6 +527,12 @@ def lifted(flow: Flow, atom: Callable[[ast.AST, int], Tri], fuel: int = 4,
     reach (under `scenario`, if given) must give the same verdict."""
     def atom2(e: ast.AST, nid: int) -> Tri:
         v = atom(e, nid)
+        if v is None:
+            ta = truth_atom(e)
+            if ta is not None and isinstance(ta[0], ast.Name):
+                o = flow.origin(ta[0], nid, scenario=scenario)
+                if o and all(q.kind == "expr" and isinstance(q.node, ast.Constant) and q.node.value is None for q in o):
+                    return ta[1]  # every definition that can reach assigns None
         if v is None and isinstance(e, ast.Name) and fuel > 0:
             verdicts: set[Tri] = set()
             for o in flow.origin(e, nid, scenario=scenario):
@@ -852,9 +858,44 @@ def inline_all(prog: Program, fn: FuncInfo, stop: Iterable[str] = (), depth: int
             out.append(st)
         return out
 
+    def simple(e: ast.AST) -> bool:
+        """Evaluating `e` has no effect and cannot observe one (so a later argument may be computed before it)."""
+        return isinstance(e, (ast.Name, ast.Constant)) or (isinstance(e, ast.Attribute) and simple(e.value))
+
+    hoists = 0
     for _ in range(depth):
         changed = False
         nested = {n.name: n for n in ast.walk(root) if isinstance(n, (ast.FunctionDef, ast.AsyncFunctionDef)) and n is not root}
+        # `f(a, self._h(..))` / `x = g(await self._h(..))`: a private-helper call that is a direct argument of the
+        # statement's outermost call, all earlier arguments being plain names, is given a name of its own first
+        for suite in list(_suite_lists(root)):
+            i = 0
+            while i < len(suite):
+                s = suite[i]
+                val = s.value if isinstance(s, (ast.Expr, ast.Assign, ast.AnnAssign, ast.Return)) else None
+                outer_call = unawait(val) if val is not None else None
+                if isinstance(outer_call, ast.Call) and simple(outer_call.func if not isinstance(outer_call.func, ast.Attribute) else outer_call.func.value) \
+                        and not any(isinstance(a, ast.Starred) for a in outer_call.args):
+                    slots: list[tuple[Any, Any]] = [(outer_call.args, j) for j in range(len(outer_call.args))] + \
+                        [(k, "value") for k in outer_call.keywords]
+                    for holder, key in slots:
+                        arg = holder[key] if isinstance(holder, list) else getattr(holder, key)
+                        inner = unawait(arg)
+                        if isinstance(inner, ast.Call) and callee_of(inner, nested) is not None and hoists < 20:
+                            hoists += 1
+                            tmp = f"__arg_{hoists}"
+                            suite.insert(i, ast.copy_location(ast.Assign(targets=[ast.Name(id=tmp, ctx=ast.Store())], value=arg), s))
+                            new_arg = ast.copy_location(ast.Name(id=tmp, ctx=ast.Load()), arg)
+                            if isinstance(holder, list):
+                                holder[key] = new_arg
+                            else:
+                                setattr(holder, key, new_arg)
+                            changed = True
+                            i += 1
+                            break
+                        if not simple(arg):
+                            break
+                i += 1
         for suite in list(_suite_lists(root)):
             i = 0
             while i < len(suite):
